@@ -303,6 +303,10 @@ def run_book(ctx, bi, far):
                 f'=INDEX({S(cv(c1))},MATCH({code(tsi, i, c2)},{S(cv(c2))},0))',
                 f'=SUMIF({S(cv(c2))},">{thr}")',
                 f'=SUMIF({S(cv(c2))},">={thr}",{S(cv(c1))})',
+                # criteria range and sum range on two DIFFERENT sheets (every sheet carries other numbers at the same coordinates)
+                f'=SUMIF({S(cv(c2))},">={thr}",{S(Ref((tsi + 1) % ns, 1, c1, 4, c1))})',
+                f'=SUMIF({S(cv(c2))},"<{thr}",{S(Ref((tsi + 1) % ns, 1, c1, 0, 0, single=True))})',
+                f'=SUMIFS({S(Ref((tsi + 1) % ns, 1, c1, 4, c1))},{S(cv(c2))},">={thr}")+COUNTIFS({S(cv(c2))},">={thr}",{S(Ref((tsi + 1) % ns, 1, c2, 4, c2))},">0")',
                 f'=SUMIFS({S(cv(c1))},{S(cv(c2))},"<{thr}")',
                 f'=COUNTIFS({S(cv(c2))},"<={thr}")',
                 f'=AVERAGEIFS({S(cv(c1))},{S(cv(c2))},">={thr}")',
